@@ -7,11 +7,12 @@
  * Stubs (all by macro redirection, names v_*, so the harness also builds natively for replay):
  *   epoll_ctl, epoll_wait, timerfd_create, timerfd_settime, close, read, getsockopt, setsockopt, waitpid,
  *   syscall(SYS_pidfd_open), fcntl, syslog.
- * They record their arguments in tpev_log_* and take their results from TPEV_IN (solver variables), restricted only
+ * They record their arguments in the tpev_lc_* (epoll_ctl), tpev_ls_* (timerfd_settime), tpev_lcre_* (timerfd_create / pidfd_open)
+ * and tpev_log_close arrays and take their results from TPEV_IN (solver variables), restricted only
  * by what the man pages promise:
  *   epoll_ctl : EEXIST iff ADD of a registered (epfd,fd); ENOENT iff MOD/DEL of an unregistered one; any other errno may
  *               be injected at any call; EPOLLERR|EPOLLHUP are always in the interest set (epoll_ctl(2));
- *   epoll_wait: reports only registered descriptors, only bits of the interest set, and after an EPOLLONESHOT report
+ *   epoll_wait: reports only registered descriptors (which one: fixed by the harness, see tpev_deliver_ptr), only bits of the interest set, and after an EPOLLONESHOT report
  *               the descriptor stays silent until EPOLL_CTL_MOD (epoll_ctl(2)); readiness itself is arbitrary;
  *   timerfd_settime: EINVAL when a timespec is not normalised (tv_sec < 0 or tv_nsec outside [0, 1e9)), EBADF for a
  *               descriptor that is not an open timerfd, any other errno may be injected;
